@@ -49,6 +49,17 @@ func colIDs(c jsonapi.Collection) string {
 func suiteRange(r *Rng, n int, thorough bool, o *Out) {
 	for c := 0; c < n; c++ {
 		typ := genTyp(r, genTypeOpts{name: "t", maxAttrs: 4, maxRels: 1})
+		if c%2 == 1 {
+			// focus case: every attribute has one kind/nullability, cycling through all 28,
+			// so that each case of Less meets ties, nils and descending rules
+			k := 1 + (c/2)%14
+			nullable := (c/28)%2 == 1
+			typ = jsonapi.Type{Name: "t", Attrs: map[string]jsonapi.Attr{}, Rels: map[string]jsonapi.Rel{}}
+			for _, nm := range []string{"a", "b"}[:1+r.IntN(2)] {
+				_ = typ.AddAttr(jsonapi.Attr{Name: nm, Type: k, Nullable: nullable})
+			}
+			o.stat("focus." + jsonapi.GetAttrTypeString(k, nullable))
+		}
 		size := r.IntN(9)
 		wrapped := r.bool()
 		var col jsonapi.Collection
@@ -125,7 +136,7 @@ func suiteRange(r *Rng, n int, thorough bool, o *Out) {
 			a := attrNames[r.IntN(len(attrNames))]
 			tags = append(tags, "k"+jsonapi.GetAttrTypeString(typ.Attrs[a].Type, typ.Attrs[a].Nullable))
 			o.stat("sortkind." + jsonapi.GetAttrTypeString(typ.Attrs[a].Type, typ.Attrs[a].Nullable))
-			if r.chance(1, 3) {
+			if r.chance(1, 3) || (c%2 == 1 && r.bool()) {
 				a = "-" + a
 			}
 			rules = append(rules, a)
